@@ -136,7 +136,7 @@ pub fn look() -> SweepProfile {
     SweepProfile {
         profile: Profile {
             name: "P-look",
-            leaves: vec![ch('a'), ch('b'), Node::Empty, Node::AssertStart, Node::AssertEnd, Node::WordB, Node::BackRef(1), Node::BackRef(2)],
+            leaves: vec![ch('a'), ch('b'), Node::Empty, Node::AssertStart, Node::AssertEnd, Node::WordB, Node::BackRef(1), Node::BackRef(2), Node::Class { negated: true, items: vec![] }],
             unary,
             cat: true,
             alt: true,
@@ -239,6 +239,8 @@ pub fn utf8() -> SweepProfile {
                 Node::Empty,
                 Node::AssertEnd,
                 Node::BackRef(1),
+                // the any-character class (an inverted empty set) next to arms with a definite first byte
+                Node::Class { negated: true, items: vec![] },
             ],
             unary,
             cat: true,
